@@ -174,6 +174,8 @@ func (g *gen) genC08() {
 			op = Op{ID: g.id(), Kind: opOption, Set: set, Text: g.pick([]string{"missingkey=error", "missingkey=zero", "missingkey=default"})}
 		case n < 97 && ntasks == 1:
 			op = Op{ID: g.id(), Kind: opCSP, Set: set}
+		case n < 98 && ntasks == 1:
+			op = Op{ID: g.id(), Kind: opFuncs, Set: set, Name: "fx0"}
 		default:
 			op = g.execOp(set, names)
 		}
